@@ -4,10 +4,11 @@
 # it from an isolated worktree of /verif (/root/wt/seedcheck), and records the outcome in /verif/seeded/<name>/.
 set -u
 SRC="$1"; PID="$2"; NAME="$3"
-V=/verif; SC=/root/wt/seedcheck; WT=/tmp/vs_$NAME
+V=/verif; SC=${SEEDCHECK:-/root/wt/seedcheck}; WT=/tmp/vs_$NAME
 PY=/venv/bin/python
 SUITE="-m pytest -q -p no:cacheprovider --timeout=900 --continue-on-collection-errors"
-if [ ! -d $SC ]; then git -C $V worktree add -q $SC -b wt-seedcheck; fi
+if [ ! -d $SC ]; then git -C $V worktree add -q $SC -b wt-$(basename $SC); fi
+if [ ! -d $SC/lean/.lake ] && [ -d $V/lean/.lake ]; then cp -r $V/lean/.lake $SC/lean/.lake; fi
 git -C $SC merge --abort >/dev/null 2>&1; git -C $SC reset -q --hard main; git -C $SC clean -qfd -e lean/.lake
 (cd $SC && ./setup.sh >/dev/null 2>&1)
 git -C /repo worktree add -q $WT HEAD || exit 2
@@ -32,7 +33,7 @@ print((v.get('what') or ('; '.join(d.get('broken_obligations',[])[:2]) + ' | ' +
 (cd $SC && git checkout -q -- lean/DateutilVerif/Generated 2>/dev/null)
 git -C /repo worktree remove --force $WT
 mkdir -p $V/seeded/$NAME
-cp $SRC/patch.diff $SRC/demo.py $V/seeded/$NAME/
+[ "$(readlink -f $SRC)" = "$(readlink -f $V/seeded/$NAME)" ] || cp $SRC/patch.diff $SRC/demo.py $V/seeded/$NAME/
 python3 - "$SRC/meta.json" "$V/seeded/$NAME/meta.json" "$PID" "$SUITE_SAME" "$DEMO0" "$DEMO1" "$RC" "$VLINE" "$WHAT" <<'PYEOF'
 import json, sys
 src, dst, pid, same, d0, d1, rc, vline, what = sys.argv[1:10]
